@@ -607,14 +607,18 @@ func (t *tcpTarget) open() error {
 	return nil
 }
 
-func (t *tcpTarget) close() {
+func (t *tcpTarget) close() { _ = t.fail(false) }
+
+// fail makes the target refuse connections (hole = false) or let them time out (hole = true).
+func (t *tcpTarget) fail(hole bool) error {
 	t.mu.Lock()
-	if t.isOpen {
-		ln := t.sw.ln
-		_ = t.sw.refuse(func() { ln.Close() })
-		t.isOpen = false
+	defer t.mu.Unlock()
+	if !t.isOpen {
+		return nil
 	}
-	t.mu.Unlock()
+	ln := t.sw.ln
+	t.isOpen = false
+	return t.sw.fail(func() { ln.Close() }, hole)
 }
 
 func (t *tcpTarget) release() {
@@ -636,8 +640,9 @@ func healthTCPCase(c *h.Case) {
 		nShort = 0
 	}
 	startClosed := rng.Intn(2) == 0
+	hole := rng.Intn(3) == 0 // failed probes are connects that time out instead of refused ones
 	c.Data["kind"], c.Data["type"] = "health-direct", "tcp"
-	c.Data["maxFailed"], c.Data["short_windows"], c.Data["start_closed"] = maxFailed, nShort, startClosed
+	c.Data["maxFailed"], c.Data["short_windows"], c.Data["start_closed"], c.Data["failure"] = maxFailed, nShort, startClosed, map[bool]string{false: "refused", true: "timeout"}[hole]
 
 	tg := &tcpTarget{}
 	if err := tg.open(); err != nil { // learn a port
@@ -645,8 +650,15 @@ func healthTCPCase(c *h.Case) {
 		return
 	}
 	defer tg.release()
-	if startClosed {
-		tg.close()
+	shut := func() bool {
+		if err := tg.fail(hole); err != nil {
+			run.Inconclusive("tcp target: " + err.Error())
+			return false
+		}
+		return true
+	}
+	if startClosed && !shut() {
+		return
 	}
 	var mu sync.Mutex
 	var tr []trans
@@ -708,7 +720,9 @@ func healthTCPCase(c *h.Case) {
 		}
 		W := time.Duration(maxFailed-1)*iv - 500*time.Millisecond
 		t0 := h.Now()
-		tg.close()
+		if !shut() {
+			return
+		}
 		time.Sleep(W)
 		if !reopen() {
 			return
@@ -736,7 +750,9 @@ func healthTCPCase(c *h.Case) {
 	}
 	// long window: closed until the failure callback
 	t0 := h.Now()
-	tg.close()
+	if !shut() {
+		return
+	}
 	if !waitTrans(2, grace) {
 		c.Violation("health-not-down-after-max-consecutive-failures", "tcp monitor (maxFailed %d): target refusing for %v, no failure callback", maxFailed, grace)
 		return
@@ -769,5 +785,8 @@ func healthTCPCase(c *h.Case) {
 	}
 	run.Count("health_sequences", 1)
 	run.Count("health_callbacks", 3)
-	run.Distinct(fmt.Sprintf("health|tcp|%d|%d|%v", maxFailed, nShort, startClosed))
+	run.Distinct(fmt.Sprintf("health|tcp|%d|%d|%v|%v", maxFailed, nShort, startClosed, hole))
+	if hole {
+		run.Count("tcp_timeout_scripts", 1)
+	}
 }
